@@ -58,6 +58,8 @@ func (c *RowCollector) CollectResolvedRow(errChan chan<- error, origChan <-chan 
 		for m := range origChan {
 			if m.ColDiff != nil {
 				c.cd = m.ColDiff
+				// collected rows are in the merged layout, where the key columns come first
+				c.resolvedRows.PK = c.cd.PKIndices()
 			} else if m.Resolved {
 				err := c.SaveResolvedRow(m.PK, m.ResolvedRow)
 				if err != nil {
